@@ -137,8 +137,9 @@ Fixpoint gunfold (k : nat) (g : graph) (n : name) : utree :=
   end.
 
 Inductive result :=
-| RErr                     (* an error: the build failed, or ("unlinked ref") the lookup found a
-                              placeholder with To == nil *)
+| RErr                     (* an error: the build failed (a field of an unsupported type) *)
+| RUnlinked                (* the error "unlinked ref": the lookup found a placeholder with To == nil,
+                              registered by a build that is still in progress (only without the lock) *)
 | RNil                     (* no error, but no schema either: the lookup found the typed nil pointer
                               that a failed build had left in To (only without the lock) *)
 | ROk (t : utree).
@@ -146,7 +147,7 @@ Inductive result :=
 (* the end of Schema: on an error the registered refs are deleted; registered = nil *)
 Definition finish_shared (res : result) (sh : shared) : shared :=
   match res with
-  | RErr => rollback sh
+  | RErr | RUnlinked => rollback sh
   | RNil | ROk _ => reset_reg sh
   end.
 
@@ -199,7 +200,7 @@ Definition lstep (k : nat) (g : graph) (n : name) (sh : shared) (p : pc) : share
       | Some c =>
           match cell_to sh c with
           | Some _ => (sh, inr (ROk (unfold k (heap sh) c)))
-          | None => (sh, inr (if existsb (Nat.eqb c) (failed sh) then RNil else RErr))
+          | None => (sh, inr (if existsb (Nat.eqb c) (failed sh) then RNil else RUnlinked))
           end
       | None => (sh, inl PInsert)
       end
